@@ -502,6 +502,7 @@ type Config struct {
 	ResP      int      `json:"resp"`      // driver: per-mille probability of a resource operation per step
 	TypedObs  bool     `json:"typedobs"`  // register observers through Observer1..4 where the observed set allows
 	Arity     bool     `json:"arity"`     // driver: draw component sets from the instantiated tuples of all arities
+	GridArity []int    `json:"gridarity"` // coverage-guided targets: prefer the tuples of these arities (top-up runs of C14)
 	Grid      int      `json:"grid"`      // percent of driver operations drawn coverage-guided (grid.go)
 	Unbatch   bool     `json:"unbatch"`   // execute batch operations as the single-entity operations they abbreviate (C06)
 	BatchN    int      `json:"batchn"`    // driver: maximum size of NewBatch (default 5)
